@@ -67,11 +67,16 @@ def build_driver(drv, libdir):
     ddir = os.path.join(BUILD, "drv-%s-%s" % (drv["name"], key))
     exe = os.path.join(ddir, drv["name"])
     if os.path.exists(exe + ".ok"):
+        try:
+            os.utime(ddir, None)
+        except OSError:
+            pass
         return exe
-    # prune older builds of this driver
-    for d in os.listdir(BUILD):
-        if d.startswith("drv-%s-" % drv["name"]) and os.path.join(BUILD, d) != ddir:
-            shutil.rmtree(os.path.join(BUILD, d), ignore_errors=True)
+    # prune older builds of this driver: keep the 5 most recent
+    olds = sorted([os.path.join(BUILD, d) for d in os.listdir(BUILD) if d.startswith("drv-%s-" % drv["name"]) and os.path.join(BUILD, d) != ddir],
+                  key=lambda x: os.path.getmtime(x), reverse=True)
+    for d in olds[5:]:
+        shutil.rmtree(d, ignore_errors=True)
     os.makedirs(ddir, exist_ok=True)
     inc = open(os.path.join(libdir, "inc_flags")).read().strip()
     cflags = open(os.path.join(libdir, "c_flags")).read().strip()
